@@ -360,6 +360,19 @@ def check_c05(run: Run) -> None:
     match(run)
     if run.lfs is None:
         return
+    # "under that object's set type, name ...": two objects of ONE set with the same identity cannot be told apart by a
+    # reader, so values assigned to one of them are not attributable (same-named objects must differ in copy number)
+    for lfi, dl in enumerate(run.lfs):
+        for s_ in dl.sets:
+            seen = {}
+            for o_ in s_.objects:
+                k_ = tuple(o_.name)
+                if k_ in seen and any(not (a.absent or a.omitted) for a in list(o_.attrs.values()) + list(seen[k_].attrs.values())):
+                    run.v('C05', 'objects-indistinguishable', 'objects-indistinguishable',
+                          f'lf {lfi} set {s_.type}/{s_.name}: two objects are written as {k_}; their attribute values cannot be attributed')
+                    break
+                seen[k_] = o_
+            run.obs['c05-set-identities-checked'] += 1
     for lfi, el in enumerate(run.exp):
         for eo in el.objects:
             m = run.match.get(eo.op_index)
@@ -931,6 +944,9 @@ def check_c09(run: Run) -> None:
     ensure_expected(run)
     if run.stage_error and run.stage_error[0] == 'semantic' and run.stage_error[1].kind == 'record-before-file-header':
         run.v('C09', 'record-before-header', 'record-before-header', str(run.stage_error[1]))
+    if run.stage_error and run.stage_error[0] == 'semantic' and run.stage_error[1].kind == 'template-empty':
+        # a set record holding nothing but its set component: an empty set was written
+        run.v('C09', 'empty-set', 'empty-set', str(run.stage_error[1]))
     if run.lfs is None:
         return
     for lfi, dl in enumerate(run.lfs):
@@ -976,6 +992,9 @@ def check_c09(run: Run) -> None:
         defined = set()
         for k, x in dl.sequence:
             if k == 'E':
+                run.obs['c09-set-nonempty-checked'] += 1
+                if not x.objects:
+                    run.v('C09', 'empty-set', 'empty-set', f'lf {lfi}: set {x.type}/{x.name} is written without any object')
                 for o in x.objects:
                     defined.add((x.type,) + tuple(o.name))
             else:
